@@ -3,7 +3,7 @@
  * Real code: mtbl/block.c (included), varint.c, fixed.c, ubuf.  The block bytes are produced by an INDEPENDENT
  * reference encoder in this file from a symbolic entry list with any legal encoding choice (restart at any subset of
  * entries, any amount of prefix sharing up to the common prefix -- not only what today's writer emits). */
-#include "/repo/mtbl/block.c"
+#include "mtbl/block.c"
 #include "spec/ghost.h"
 void *realloc(void *p, size_t n) { VG_A(0, "no vector growth expected in this capped harness"); __CPROVER_assume(0); return p; }
 
